@@ -199,6 +199,25 @@ abbrev Inv (σ : Schema) (s : St) : Prop := GInv σ none' s
 theorem GInv.bossTargets {σ : Schema} {s : St} (h : GInv σ none' s) : Targets (·.boss) s.as s.as.contains :=
   fun k e he hne => h.bossT k e he (fun hp => hp) hne
 
+/-! ### the fks declared by the child stores -/
+
+/-- the part of the invariant that speaks about the fks DECLARED BY the child stores C (`.c1`) and C2 (`.c2`):
+    the back-reference sets `mentees1` / `mentees2` are exact for the declared mentor indexes (with a pending set
+    per index: an entity is pending for index `c` between `c`'s `ProcessBeforeDelete` and the removal of its
+    bucket), declared mentor / guard values name existing B entities, set buckets only under existing B entities.
+    `mentorOf` / `guardOf` are `none` for a child store that does not declare the fk, so the statements are
+    uniform in the schema. -/
+structure MInv (σ : Schema) (P : Child → Bytes → Prop) (s : St) : Prop where
+  men : ∀ c, SetExact (mentorOf σ c) (P c) s.as (s.mentees c)
+  menT : ∀ c, Targets (mentorOf σ c) s.as s.bs.contains
+  guardT : ∀ c, Targets (guardOf σ c) s.as s.bs.contains
+  menK : ∀ c t, (s.mentees c).lookup t ≠ none → s.bs.contains t = true
+
+abbrev CInv (σ : Schema) (s : St) : Prop := MInv σ (fun _ => none') s
+
+/-- **the whole C04 invariant**: A's fks (`Inv`) and the child-declared fks (`CInv`) -/
+def FullInv (σ : Schema) (s : St) : Prop := Inv σ s ∧ CInv σ s
+
 /-- `st` holds a sub-table of `s` -/
 def Sub (st s : St) : Prop := ∀ k e, st.as.lookup k = some e → s.as.lookup k = some e
 
